@@ -157,8 +157,15 @@ let run_fuel = nat_of_int 20000
 let run_case id main files stddir =
   match FrontModel.parse_main (env_of files stddir) (bytes_of_hex main) with
   | FrontModel.POk (body, _, _, _) ->
+      (* the flat shell model of the C01 theorems on the model's own script (defined for loop- and function-free programs) *)
+      let flat = (match BashConv.emit_bash body with
+          | Transpile.TOk (_, st) ->
+              (match FlatSem.run (nat_of_int 20000) false [] st.BashConv.b_code with
+               | Some (_, out) -> " flat=" ^ hex_of_bytes out
+               | None -> "")
+          | _ -> "") in
       (match Src.run run_fuel [] [] body with
-       | Src.Ran (out, status, _) -> Printf.printf "run %s transpile=ok out=%s status=%s stderr=\n" id (hex_of_bytes out) (z_to_string status)
+       | Src.Ran (out, status, _) -> Printf.printf "run %s transpile=ok out=%s status=%s stderr=%s\n" id (hex_of_bytes out) (z_to_string status) flat
        | Src.RunUndef -> Printf.printf "run %s undefined\n" id
        | Src.RunNoFuel -> Printf.printf "run %s nofuel\n" id)
   | FrontModel.PErr -> Printf.printf "run %s transpile=err\n" id
